@@ -268,7 +268,7 @@ fn check(ctx: &Ctx, c: &Case) {
 }
 
 fn scratch_dir() -> PathBuf {
-    let d = fw::verif_root().join("build").join("scratch-c12");
+    let d = fw::verif_root().join("build").join(format!("scratch-c12-{}", std::process::id()));
     let _ = std::fs::create_dir_all(&d);
     d
 }
